@@ -98,6 +98,9 @@ def gen_case(rng, force=None):
         rk = {'name': nm, 'nad': nad, 'density': real(rng, '10.4e', True), 'porosity': real(rng, '10.4e', True, True),
               'permeability': [real(rng, '10.4e', True) for _ in range(3)], 'conductivity': real(rng, '10.4e', True, True),
               'specific_heat': real(rng, '10.4e', True, True), 'extra': None, 'relative_permeability': None, 'capillarity': None}
+        if rng.random() < 0.15:
+            # a permeability component without a value (blank field of the ROCKS record): it stays absent, it is not a number
+            rk['permeability'][rng.randrange(3)] = None
         if nad is not None and nad >= 1:
             keys = ['compressibility', 'expansivity', 'dry_conductivity', 'tortuosity', 'klinkenberg', 'xkd3', 'xkd4']
             rk['extra'] = dict((k, real(rng, '10.4e', True, True)) for k in keys)
